@@ -28,6 +28,16 @@ PROPS = {
         'not_decided': 'composition of the proved fragments over whole programs (labels, indirect jumps, recursion); conditional-branch control flow is specified as a taken/not-taken decision only',
         'explanation': 'Hoare-style contracts over an x86-64 ISA specification on every instruction emitter of axcut2x86_64, for all operand placements and all 64-bit values',
     },
+    'C07': {
+        'units': ['a64_code'],
+        'aux': ['native_emitters_a64', 'native_moves', 'kani_bitkernels'],
+        'level': 'proof',
+        'claim': 'Every instruction emitter of the AArch64 backend is proved, for all operand placements and all 64-bit contents, to have exactly the effect of the abstract operation on an explicit A64 model (including the three code paths of rem with their scratch-register clashes and, for load_immediate, the MOVZ/MOVN/MOVK synthesis of every 64-bit literal), with a full frame. Whole-program simulation is not decided.',
+        'note': 'Trusted: the hand-written A64 specification, the extraction rules, the printer, Verus/Z3.',
+        'technique': 'contract-based deductive verification (Verus) of the extracted real emitters against an ISA specification',
+        'not_decided': 'composition of the proved fragments over whole programs; conditional-branch control flow is specified as a taken/not-taken decision only',
+        'explanation': 'Hoare-style contracts over an A64 ISA specification on every instruction emitter of axcut2aarch64',
+    },
     'C11': {
         'units': ['x86_moves'],
         'aux': ['native_moves'],
